@@ -39,6 +39,8 @@ def doc_sem(cls, p, dagger, n, m):
 def merge_case(h, cls, npar, ns, fid=None):
     ops = h.module(OPS)
     m = h.eng.math
+    for k_, v_ in (("cls", cls), ("npar", npar), ("ns", ns)):
+        h._reg(k_, v_)
     shared = [h.real(f"s{k}") for k in range(1, npar)]
     a0, b0 = (h.real("a0"), h.real("b0")) if npar >= 1 else (None, None)
     C = getattr(ops, cls)
@@ -85,7 +87,8 @@ for (cls, npar, ns) in FAMILIES:
             merge_case(h, cls, npar, ns)
         f.__name__ = ""
         return f
-    PROOFS.append(Proof(["C03", "C09"], OPS + ":Gate.merge", mk(), name=f"Gate.merge/{cls}"))
+    PROOFS.append(Proof(["C03", "C09"], OPS + ":Gate.merge", mk(), name=f"Gate.merge/{cls}",
+                        native="from native.c01_backends import replay_merge; replay_merge(OBLIGATION, I)"))
 
 for (cls, npar, ns, fid) in NOT_ADDITIVE:
     def mk(cls=cls, npar=npar, ns=ns, fid=fid):
